@@ -485,8 +485,34 @@ macro_rules! int_arith {
 int_arith!(c01_step_AddInt, AddInt, checked_add);
 //@ tier=thorough cap=1800 funcs=ExecuteContext::execute_,binop_int,binop bound=operands_any_i64;frame_of_3_slots mem=14
 int_arith!(c01_step_SubtractInt, SubtractInt, checked_sub);
-//@ tier=quick cap=900 funcs=ExecuteContext::execute_,binop_int,binop bound=operands_any_i64;frame_of_3_slots mem=14
+//@ tier=thorough cap=1800 funcs=ExecuteContext::execute_,binop_int,binop bound=operands_any_i64;frame_of_3_slots mem=14
 int_arith!(c01_step_DivideInt, DivideInt, checked_div);
+
+// Division with a CONCRETE divisor and any dividend: a symbolic 64-bit divider compared with a second,
+// differently written one is a SAT-hard equivalence (measured on a seeded change that replaced
+// `checked_div` by a zero test plus `wrapping_div`: out of memory, then no verdict in 15 min); with the
+// divisor fixed the query is easy, and the three divisors are the three behaviours of the instruction:
+// -1 (overflows for the minimum), 0 (error value), and an ordinary one.
+macro_rules! int_div_by {
+    ($name: ident, $d: expr) => {
+        step_harness!($name, {
+            let s = any_scalar();
+            let a: VmInt = kani::any();
+            let b: VmInt = $d;
+            let exp = match a.checked_div(b) {
+                Some(r) => Expect { frame: Some(pad(&[s, V::I(r)])) },
+                None => Expect { frame: None },
+            };
+            check_step(DivideInt, &[repr_of(s), Int(a), Int(b)], (None, None), exp);
+        });
+    };
+}
+//@ tier=quick cap=900 mem=14 funcs=ExecuteContext::execute_,binop_int,binop bound=dividend_any_i64;divisor_minus_1
+int_div_by!(c01_step_DivideInt_by_m1, -1);
+//@ tier=quick cap=900 mem=14 funcs=ExecuteContext::execute_,binop_int,binop bound=dividend_any_i64;divisor_0
+int_div_by!(c01_step_DivideInt_by_0, 0);
+//@ tier=quick cap=900 mem=14 funcs=ExecuteContext::execute_,binop_int,binop bound=dividend_any_i64;divisor_7
+int_div_by!(c01_step_DivideInt_by_7, 7);
 
 //@ tier=thorough cap=1800 funcs=ExecuteContext::execute_,binop_int,binop bound=operands_any_i32_sign_extended;frame_of_3_slots mem=14
 step_harness!(c01_step_MultiplyInt, {
